@@ -7,58 +7,108 @@ use crate::runner::*;
 use h263_rs_yuv::bt601::yuv420_to_rgba;
 use serde_json::{json, Map, Value};
 
-/// Plane content families. 0: bytes from `src`; 1: extremes; 2: per-position-unique pattern so a
-/// shifted / mirrored / interpolated sample is always visible.
-fn planes(w: usize, h: usize, family: u32, src: &mut dyn FnMut() -> u8) -> (Vec<u8>, Vec<u8>, Vec<u8>) {
-    let cw = (w + 1) / 2;
-    let ch = (h + 1) / 2;
-    let mut y = vec![0u8; w * h];
-    let mut cb = vec![0u8; cw * ch];
-    let mut cr = vec![0u8; cw * ch];
-    match family {
+/// One plane in a given style. 0 random bytes, 1 extremes, 2 per-position-unique pattern, 3 flat,
+/// 4 every row identical, 5 every column identical, 6 rows repeated in pairs starting at an odd
+/// row (row 2k+1 == row 2k+2, i.e. equal rows that straddle a chroma-row boundary), 7 two-valued
+/// 4x4 tiles.
+fn fill_plane(w: usize, h: usize, style: u32, salt: usize, src: &mut dyn FnMut() -> u8) -> Vec<u8> {
+    let mut p = vec![0u8; w * h];
+    match style {
         0 => {
-            for v in y.iter_mut() {
-                *v = src();
-            }
-            for v in cb.iter_mut() {
-                *v = src();
-            }
-            for v in cr.iter_mut() {
+            for v in p.iter_mut() {
                 *v = src();
             }
         }
         1 => {
-            for v in y.iter_mut() {
-                *v = if src() & 1 == 0 { 0 } else { 255 };
-            }
-            for v in cb.iter_mut() {
-                *v = if src() & 1 == 0 { 0 } else { 255 };
-            }
-            for v in cr.iter_mut() {
+            for v in p.iter_mut() {
                 *v = if src() & 1 == 0 { 0 } else { 255 };
             }
         }
-        _ => {
-            let off = src();
+        2 => {
+            let off = src() as usize;
+            let (a, b) = [(7usize, 31usize), (13, 53), (29, 11)][salt % 3];
             for py in 0..h {
                 for px in 0..w {
-                    y[px + py * w] = (px * 7 + py * 31 + off as usize) as u8;
+                    p[px + py * w] = (px * a + py * b + off + salt * 17) as u8;
                 }
             }
-            for py in 0..ch {
-                for px in 0..cw {
-                    cb[px + py * cw] = (px * 13 + py * 53 + 17 + off as usize) as u8;
-                    cr[px + py * cw] = (px * 29 + py * 11 + 101 + off as usize) as u8;
+        }
+        3 => {
+            let v = src();
+            for x in p.iter_mut() {
+                *x = v;
+            }
+        }
+        4 => {
+            let row: Vec<u8> = (0..w).map(|_| src()).collect();
+            for py in 0..h {
+                p[py * w..(py + 1) * w].copy_from_slice(&row);
+            }
+        }
+        5 => {
+            let col: Vec<u8> = (0..h).map(|_| src()).collect();
+            for py in 0..h {
+                for px in 0..w {
+                    p[px + py * w] = col[py];
+                }
+            }
+        }
+        6 => {
+            let mut prev: Vec<u8> = (0..w).map(|_| src()).collect();
+            for py in 0..h {
+                if py % 2 == 1 {
+                    prev = (0..w).map(|_| src()).collect();
+                }
+                p[py * w..(py + 1) * w].copy_from_slice(&prev);
+            }
+        }
+        _ => {
+            let (a, b) = (src(), src());
+            for py in 0..h {
+                for px in 0..w {
+                    p[px + py * w] = if (px / 4 + py / 4) % 2 == 0 { a } else { b };
                 }
             }
         }
     }
-    (y, cb, cr)
+    p
+}
+
+/// Plane content families. 0: random bytes; 1: extremes; 2: per-position-unique pattern so a
+/// shifted / mirrored / interpolated sample is always visible; 3: every plane gets its own
+/// independently chosen structured style (flat / repeated rows / repeated columns / ... ), e.g.
+/// flat luma over varying chroma.
+fn planes(w: usize, h: usize, family: u32, src: &mut dyn FnMut() -> u8) -> (Vec<u8>, Vec<u8>, Vec<u8>) {
+    let cw = (w + 1) / 2;
+    let ch = (h + 1) / 2;
+    match family {
+        0 | 1 | 2 => (fill_plane(w, h, family, 0, src), fill_plane(cw, ch, family, 1, src), fill_plane(cw, ch, family, 2, src)),
+        _ => {
+            let sy = [3u32, 4, 5, 6, 7, 3, 6, 0][(src() % 8) as usize];
+            let sb = [0u32, 2, 4, 5, 3, 7, 2, 0][(src() % 8) as usize];
+            let sr = [2u32, 0, 5, 4, 7, 3, 0, 2][(src() % 8) as usize];
+            (fill_plane(w, h, sy, 0, src), fill_plane(cw, ch, sb, 1, src), fill_plane(cw, ch, sr, 2, src))
+        }
+    }
 }
 
 fn check_picture(w: usize, y: &[u8], cb: &[u8], cr: &[u8]) -> Result<(), String> {
+    check_picture_at(w, y, cb, cr, (0, 0, 0))
+}
+
+/// As `check_picture`, but the three planes are handed over as sub-slices starting `offs` bytes
+/// into larger buffers (callers pass slices of packed frames; nothing promises any alignment).
+fn check_picture_at(w: usize, y: &[u8], cb: &[u8], cr: &[u8], offs: (usize, usize, usize)) -> Result<(), String> {
     let h = if w == 0 { 0 } else { y.len() / w };
-    let out = guard(|| yuv420_to_rgba(y, cb, cr, w)).map_err(|p| format!("yuv420_to_rgba({}x{}) panicked: {}", w, h, p))?;
+    let pad = |p: &[u8], k: usize| -> Vec<u8> {
+        let mut v = vec![0xEEu8; k];
+        v.extend_from_slice(p);
+        v.extend_from_slice(&[0xDD; 3]);
+        v
+    };
+    let (by, bb, br) = (pad(y, offs.0), pad(cb, offs.1), pad(cr, offs.2));
+    let (sy, sb, sr) = (&by[offs.0..offs.0 + y.len()], &bb[offs.1..offs.1 + cb.len()], &br[offs.2..offs.2 + cr.len()]);
+    let out = guard(|| yuv420_to_rgba(sy, sb, sr, w)).map_err(|p| format!("yuv420_to_rgba({}x{}, planes at byte offsets {:?} of their buffers) panicked: {}", w, h, offs, p))?;
     let want = picture_rgba(y, cb, cr, w);
     if out.len() != want.len() {
         return Err(format!("{}x{}: output has {} bytes, expected {}", w, h, out.len(), want.len()));
@@ -100,15 +150,17 @@ fn size_labels(w: usize, h: usize) -> Labels {
 fn grid_item(ctx_seed: u64, wmax: u64, i: u64, acc: &mut Acc) {
     let w = (i % wmax + 1) as usize;
     let h = (i / wmax + 1) as usize;
-    for family in 0..3u32 {
-        let bytes = super::content_bytes(ctx_seed ^ ((w as u64) << 20) ^ ((h as u64) << 8) ^ family as u64, w * h * 2 + 16);
+    for family in 0..4u32 {
+        let bytes = super::content_bytes(ctx_seed ^ ((w as u64) << 20) ^ ((h as u64) << 8) ^ family as u64, w * h * 2 + 32);
         let mut k = 0;
         let mut src = || {
             k += 1;
-            bytes[k - 1]
+            bytes[(k - 1) % bytes.len()]
         };
         let (y, cb, cr) = planes(w, h, family, &mut src);
-        if let Err(m) = check_picture(w, &y, &cb, &cr) {
+        // plane base addresses at every residue mod 4 over the grid
+        let offs = ((w + family as usize) % 4, (h + family as usize) % 4, (w + h) % 4);
+        if let Err(m) = check_picture_at(w, &y, &cb, &cr, offs) {
             acc.fail(json!({"kind":"params","w":w,"h":h,"family":family}), m);
             return;
         }
@@ -116,7 +168,7 @@ fn grid_item(ctx_seed: u64, wmax: u64, i: u64, acc: &mut Acc) {
         acc.count(nontrivial);
     }
     for l in size_labels(w, h) {
-        acc.label_n(l, 3);
+        acc.label_n(l, 4);
     }
     if w == 7 && h == 3 {
         acc.sample(|| json!({"w": w, "h": h, "families": ["hash bytes", "extremes", "position-unique"]}));
@@ -127,11 +179,12 @@ fn random_case(g: &mut Gen, wmax: i64, hmax: i64) -> Verdict {
     let w = if g.chance(1, 4) { g.range(1, 12) } else { g.range(1, wmax) } as usize;
     let h = if g.chance(1, 4) { g.range(1, 6) } else { g.range(1, hmax) } as usize;
     // keep the tape usage bounded: larger pictures use the pattern families more often
-    let family = if w * h > 1500 { 2 } else { g.below(3) };
+    let family = if w * h > 1500 { *g.pick(&[2u32, 3]) } else { g.below(4) };
+    let offs = (g.below(4) as usize, g.below(4) as usize, g.below(4) as usize);
     let mut src = || g.byte();
     let (y, cb, cr) = planes(w, h, family, &mut src);
-    g.describe(|| json!({"w": w, "h": h, "family": family, "y_head": &y[..y.len().min(16)]}));
-    match check_picture(w, &y, &cb, &cr) {
+    g.describe(|| json!({"w": w, "h": h, "family": family, "plane_offsets": [offs.0, offs.1, offs.2], "y_head": &y[..y.len().min(16)]}));
+    match check_picture_at(w, &y, &cb, &cr, offs) {
         Err(m) => Verdict::fail(m),
         Ok(()) => {
             let nontrivial = w % 4 != 0 || h % 2 == 1 || w >= 8;
@@ -158,15 +211,48 @@ fn empty_suite() -> SuiteReport {
     })
 }
 
+/// Very wide and very tall pictures (beyond any H.263 format): widths / heights around powers of
+/// two up to 2^17 with a few rows / columns, unique-pattern and structured contents.
+const EXTREME: [usize; 30] = [
+    1023, 1024, 1025, 2047, 2048, 2049, 2050, 2051, 2052, 4095, 4096, 4097, 4098, 4099, 8191, 8192, 8193, 8194, 16383, 16384, 16385, 32767, 32768, 32769, 65535,
+    65536, 65537, 65538, 131072, 131073,
+];
+
+fn extreme_item(seed: u64, i: u64, acc: &mut Acc) {
+    let big = EXTREME[(i % 30) as usize];
+    let small = ((i / 30) % 5 + 1) as usize;
+    let wide = (i / 150) % 2 == 0;
+    let (w, h) = if wide { (big, small) } else { (small, big) };
+    for family in [2u32, 3] {
+        let bytes = super::content_bytes(seed ^ ((w as u64) << 24) ^ ((h as u64) << 4) ^ family as u64, 4096);
+        let mut k = 0;
+        let mut src = || {
+            k += 1;
+            bytes[(k - 1) % bytes.len()]
+        };
+        let (y, cb, cr) = planes(w, h, family, &mut src);
+        if let Err(m) = check_picture_at(w, &y, &cb, &cr, (i as usize % 4, (i as usize / 4) % 4, (i as usize / 16) % 4)) {
+            acc.fail(json!({"kind":"params","w":w,"h":h,"family":family,"extreme":true,"item":i}), m);
+            return;
+        }
+        acc.count(true);
+    }
+    acc.label_n(if wide { "very wide" } else { "very tall" }, 2);
+    if i == 7 {
+        acc.sample(|| json!({"w": w, "h": h, "families": ["position-unique", "structured"]}));
+    }
+}
+
 pub fn run(ctx: &Ctx) -> i32 {
     let (wmax, hmax) = ctx.tier.pick((64u64, 24u64), (200u64, 64u64));
     let seed = ctx.seed;
     let mut reports = vec![super::regression_suite(ctx), empty_suite()];
     reports.push(exhaustive_suite(ctx, "size_grid", wmax * hmax, &move |i, acc| grid_item(seed, wmax, i, acc)));
-    let (cases, rw, rh) = ctx.tier.pick((20_000u64, 300i64, 120i64), (400_000u64, 700i64, 300i64));
+    reports.push(exhaustive_suite(ctx, "extreme_aspect", 300, &move |i, acc| extreme_item(seed, i, acc)));
+    let (cases, rw, rh) = ctx.tier.pick((100_000u64, 300i64, 120i64), (400_000u64, 700i64, 300i64));
     reports.push(tape_suite(ctx, "random_sizes", cases, 1600, &move |g| random_case(g, rw, rh)));
     let mut extra = Map::new();
-    extra.insert("grid".into(), json!(format!("every (w,h) in 1..={} x 1..={} x 3 content families", wmax, hmax)));
+    extra.insert("grid".into(), json!(format!("every (w,h) in 1..={} x 1..={} x 4 content families", wmax, hmax)));
     let exhaustive = false; // the property quantifies over all sizes; only the stated box is complete
     finish(
         ctx,
@@ -194,16 +280,25 @@ pub fn replay(suite: &str, case: &Value) -> Option<Verdict> {
             let w = case["w"].as_u64()? as usize;
             let h = case["h"].as_u64()? as usize;
             let family = case["family"].as_u64().unwrap_or(2) as u32;
-            let bytes = super::content_bytes(case["seed"].as_u64().unwrap_or(1) ^ ((w as u64) << 20) ^ ((h as u64) << 8) ^ family as u64, w * h * 2 + 16);
+            let bytes = super::content_bytes(case["seed"].as_u64().unwrap_or(1) ^ ((w as u64) << 20) ^ ((h as u64) << 8) ^ family as u64, w * h * 2 + 32);
             let mut k = 0;
             let mut src = || {
                 k += 1;
-                bytes[k - 1]
+                bytes[(k - 1) % bytes.len()]
             };
             let (y, cb, cr) = planes(w, h, family, &mut src);
-            Some(match check_picture(w, &y, &cb, &cr) {
+            let offs = ((w + family as usize) % 4, (h + family as usize) % 4, (w + h) % 4);
+            Some(match check_picture_at(w, &y, &cb, &cr, offs) {
                 Ok(()) => Verdict::pass(true, 0),
                 Err(m) => Verdict::fail(m),
+            })
+        }
+        "extreme_aspect" => {
+            let mut acc = Acc::default();
+            extreme_item(case["seed"].as_u64().unwrap_or(1), case["item"].as_u64()?, &mut acc);
+            Some(match acc.failure {
+                Some((_, _, m, _)) => Verdict::fail(m),
+                None => Verdict::pass(true, 0),
             })
         }
         "empty_picture" => {
